@@ -97,7 +97,7 @@ func runInspectChunks(ctx context.Context, opt inspectChunksOptions, args []stri
 		// See if we're meant to stop
 		select {
 		case <-ctx.Done():
-			return nil
+			return desync.Interrupted{}
 		default:
 		}
 	}
